@@ -14,7 +14,11 @@ Module M := PJ.Model.Lookup.
 Local Open Scope Z_scope.
 
 Section Tie.
-Context {K : Type} (eqb : K -> K -> bool) (is_empty : K -> bool) (empty_str : K).
+Context (S : strops).
+Notation K := (carrier S).
+Notation eqb := (s_eqb S).
+Notation is_empty := (s_is_empty S).
+Notation empty_str := (s_empty S).
 
 (* ------------------------------------------------------------------ writer side *)
 Definition zd (d : list (K * N)) : @od K := map (fun p => (fst p, Z.of_N (snd p))) d.
@@ -37,17 +41,17 @@ Proof.
   destruct (eqb k k'); [reflexivity | cbn; now rewrite IH].
 Qed.
 
-Definition Rl (g : Lookup) (m : @M.lookup K) : Prop :=
+Definition Rl (g : Lookup S) (m : @M.lookup K) : Prop :=
   Lookup_data g = zd (M.l_data m) /\ Lookup_max_size g = Z.of_N (M.l_max m) /\ Lookup__evicting g = M.l_evicting m.
 
 Lemma tie_init_lookup size :
-  exists g, Lookup___init__ (Z.of_N size) = Val g /\
+  exists g, Lookup___init__ S (Z.of_N size) = Val g /\
             Rl g {| M.l_data := []; M.l_max := size; M.l_evicting := false |}.
 Proof. eexists; split; [reflexivity|]. repeat split. Qed.
 
 (* Lookup.make_last_to_evict = OrderedDict.move_to_end; a miss is a KeyError and changes nothing *)
 Lemma tie_make_last_to_evict key g m : Rl g m ->
-  match Lookup_make_last_to_evict eqb key g, M.move_to_end eqb key m with
+  match Lookup_make_last_to_evict S key g, M.move_to_end eqb key m with
   | (Val _, g'), Some m' => Rl g' m'
   | (Exn KeyError, g'), None => g' = g
   | _, _ => False
@@ -63,7 +67,7 @@ Qed.
 
 (* Lookup.insert, for a key that is not in the table (the only way pyjelly calls it) *)
 Lemma tie_insert key g m : Rl g m -> M.find eqb key (M.l_data m) = None ->
-  match Lookup_insert eqb key g, M.insert key m with
+  match Lookup_insert S key g, M.insert key m with
   | (Val i, g'), Some (m', j) => i = Z.of_N j /\ Rl g' m'
   | (Exn _, _), None => True
   | _, _ => False
@@ -94,13 +98,13 @@ Proof.
       * rewrite Hm. lia.
 Qed.
 
-Definition Re (g : LookupEncoder) (m : @M.lenc K) : Prop :=
+Definition Re (g : LookupEncoder S) (m : @M.lenc K) : Prop :=
   Rl (LookupEncoder_lookup g) (M.e_lookup m) /\
   LookupEncoder_last_assigned_index g = Z.of_N (M.e_last_assigned m) /\
   LookupEncoder_last_reused_index g = Z.of_N (M.e_last_reused m).
 
 Lemma tie_init_encoder size :
-  exists g, LookupEncoder___init__ (Z.of_N size) = Val g /\ Re g (M.lenc_init size).
+  exists g, LookupEncoder___init__ S (Z.of_N size) = Val g /\ Re g (M.lenc_init size).
 Proof. eexists; split; [reflexivity|]. repeat split. Qed.
 
 Definition zo (r : option N) : option Z := option_map Z.of_N r.
@@ -109,7 +113,7 @@ Lemma find_move_to_end_none key m : M.move_to_end eqb key m = None -> M.find eqb
 Proof. unfold M.move_to_end. destruct (M.find eqb key (M.l_data m)); [discriminate | reflexivity]. Qed.
 
 Lemma tie_encode_entry_index key g m : Re g m ->
-  match LookupEncoder_encode_entry_index eqb key g, M.encode_entry_index eqb key m with
+  match LookupEncoder_encode_entry_index S key g, M.encode_entry_index eqb key m with
   | (Val r, g'), Some (m', r') => r = zo r' /\ Re g' m'
   | (Exn _, _), None => True
   | _, _ => False
@@ -118,16 +122,16 @@ Proof.
   intros (Hl & Ha & Hr).
   unfold LookupEncoder_encode_entry_index, M.encode_entry_index.
   pose proof (tie_make_last_to_evict key _ _ Hl) as Hmv.
-  destruct (Lookup_make_last_to_evict eqb key (LookupEncoder_lookup g)) as [r o] eqn:Eg.
+  destruct (Lookup_make_last_to_evict S key (LookupEncoder_lookup g)) as [r o] eqn:Eg.
   destruct (M.move_to_end eqb key (M.e_lookup m)) as [l'|] eqn:Em.
   - destruct r as [u|e]; [|destruct e; contradiction].
     cbn. split; [reflexivity|]. repeat split; cbn; try assumption; apply Hmv.
   - destruct r as [u|e]; [contradiction|].
     destruct e; try contradiction. subst o. cbn [is_exn].
-    assert (Hself : set_LookupEncoder_lookup (LookupEncoder_lookup g) g = g) by (destruct g; reflexivity).
+    assert (Hself : set_LookupEncoder_lookup S (LookupEncoder_lookup g) g = g) by (destruct g; reflexivity).
     rewrite Hself.
     pose proof (tie_insert key _ _ Hl (find_move_to_end_none _ _ Em)) as Hin.
-    destruct (Lookup_insert eqb key (LookupEncoder_lookup g)) as [ri oi] eqn:Egi.
+    destruct (Lookup_insert S key (LookupEncoder_lookup g)) as [ri oi] eqn:Egi.
     destruct (M.insert key (M.e_lookup m)) as [[m' j]|] eqn:Emi.
     + destruct ri as [i|e]; [|contradiction]. destruct Hin as [-> HR].
       cbn. rewrite Ha.
@@ -145,7 +149,7 @@ Lemma find_after_move key m l' i :
 Proof. trivial. Qed.
 
 Lemma tie_encode_term_index key g m : Re g m ->
-  match LookupEncoder_encode_term_index eqb key g, M.encode_term_index eqb key m with
+  match LookupEncoder_encode_term_index S key g, M.encode_term_index eqb key m with
   | (Val r, g'), Some (m', r') => r = Z.of_N r' /\ Re g' m'
   | (Exn _, _), None => True
   | _, _ => False
@@ -154,7 +158,7 @@ Proof.
   intros (Hl & Ha & Hr).
   unfold LookupEncoder_encode_term_index, M.encode_term_index.
   pose proof (tie_make_last_to_evict key _ _ Hl) as Hmv.
-  destruct (Lookup_make_last_to_evict eqb key (LookupEncoder_lookup g)) as [r o] eqn:Eg.
+  destruct (Lookup_make_last_to_evict S key (LookupEncoder_lookup g)) as [r o] eqn:Eg.
   destruct (M.move_to_end eqb key (M.e_lookup m)) as [l'|] eqn:Em.
   - destruct r as [u|e]; [|destruct e; contradiction].
     cbn [LookupEncoder_lookup set_LookupEncoder_lookup].
@@ -165,7 +169,7 @@ Proof.
 Qed.
 
 Lemma tie_encode_name_term_index key g m : Re g m ->
-  match LookupEncoder_encode_name_term_index eqb key g, M.encode_name_term_index eqb key m with
+  match LookupEncoder_encode_name_term_index S key g, M.encode_name_term_index eqb key m with
   | (Val r, g'), Some (m', r') => r = Z.of_N r' /\ Re g' m'
   | (Exn _, _), None => True
   | _, _ => False
@@ -174,7 +178,7 @@ Proof.
   intros HR. pose proof HR as (Hl & Ha & Hr).
   unfold LookupEncoder_encode_name_term_index, M.encode_name_term_index.
   pose proof (tie_encode_term_index key _ _ HR) as Ht.
-  destruct (LookupEncoder_encode_term_index eqb key g) as [r g'] eqn:Eg.
+  destruct (LookupEncoder_encode_term_index S key g) as [r g'] eqn:Eg.
   destruct (M.encode_term_index eqb key m) as [[m' c]|] eqn:Em.
   - destruct r as [v|e]; [|contradiction]. destruct Ht as [-> HR'].
     rewrite Hr.
@@ -185,7 +189,7 @@ Proof.
 Qed.
 
 Lemma tie_encode_datatype_term_index key g m : Re g m ->
-  match LookupEncoder_encode_datatype_term_index eqb key g, M.encode_datatype_term_index eqb key m with
+  match LookupEncoder_encode_datatype_term_index S key g, M.encode_datatype_term_index eqb key m with
   | (Val r, g'), Some (m', r') => r = Z.of_N r' /\ Re g' m'
   | (Exn _, _), None => True
   | _, _ => False
@@ -198,14 +202,14 @@ Proof.
   - replace (Z.of_N (M.l_max (M.e_lookup m)) =? 0) with true by lia. split; [reflexivity | exact HR].
   - replace (Z.of_N (M.l_max (M.e_lookup m)) =? 0) with false by lia.
     pose proof (tie_encode_term_index key _ _ HR) as Ht.
-    destruct (LookupEncoder_encode_term_index eqb key g) as [r g'] eqn:Eg.
+    destruct (LookupEncoder_encode_term_index S key g) as [r g'] eqn:Eg.
     destruct (M.encode_term_index eqb key m) as [[m' c]|] eqn:Em.
     + destruct r as [v|e]; [|contradiction]. exact Ht.
     + destruct r as [v|e]; [contradiction | exact I].
 Qed.
 
 Lemma tie_encode_prefix_term_index key g m : Re g m ->
-  match LookupEncoder_encode_prefix_term_index eqb is_empty key g,
+  match LookupEncoder_encode_prefix_term_index S key g,
         M.encode_prefix_term_index eqb (is_empty key) key m with
   | (Val r, g'), Some (m', r') => r = Z.of_N r' /\ Re g' m'
   | (Exn _, _), None => True
@@ -224,14 +228,14 @@ Proof.
       destruct (is_empty key); cbn [andb].
       * split; [reflexivity | exact HR].
       * pose proof (tie_encode_term_index key _ _ HR) as Ht.
-        destruct (LookupEncoder_encode_term_index eqb key g) as [r g'] eqn:Eg.
+        destruct (LookupEncoder_encode_term_index S key g) as [r g'] eqn:Eg.
         destruct (M.encode_term_index eqb key m) as [[m' c]|] eqn:Em.
         -- destruct r as [v|e]; [|contradiction]. exact Ht.
         -- destruct r as [v|e]; [contradiction | exact I].
     + replace (Z.of_N (M.e_last_reused m) =? 0) with false by lia.
       rewrite Bool.andb_false_r.
       pose proof (tie_encode_term_index key _ _ HR) as Ht.
-      destruct (LookupEncoder_encode_term_index eqb key g) as [r g'] eqn:Eg.
+      destruct (LookupEncoder_encode_term_index S key g) as [r g'] eqn:Eg.
       destruct (M.encode_term_index eqb key m) as [[m' c]|] eqn:Em.
       * destruct r as [v|e]; [|contradiction]. destruct Ht as [-> HR'].
         destruct (c =? M.e_last_reused m)%N eqn:Ec.
@@ -246,12 +250,12 @@ Inductive wop := WEntry (k : K) | WName (k : K) | WPrefix (k : K) | WDatatype (k
 Definition lift {A S} (x : outcome A * S) : outcome (option A) * S :=
   (match fst x with Val v => Val (Some v) | Exn e => Exn e end, snd x).
 
-Definition gstep (o : wop) (g : LookupEncoder) : outcome (option Z) * LookupEncoder :=
+Definition gstep (o : wop) (g : LookupEncoder S) : outcome (option Z) * LookupEncoder S :=
   match o with
-  | WEntry k => LookupEncoder_encode_entry_index eqb k g
-  | WName k => lift (LookupEncoder_encode_name_term_index eqb k g)
-  | WPrefix k => lift (LookupEncoder_encode_prefix_term_index eqb is_empty k g)
-  | WDatatype k => lift (LookupEncoder_encode_datatype_term_index eqb k g)
+  | WEntry k => LookupEncoder_encode_entry_index S k g
+  | WName k => lift (LookupEncoder_encode_name_term_index S k g)
+  | WPrefix k => lift (LookupEncoder_encode_prefix_term_index S k g)
+  | WDatatype k => lift (LookupEncoder_encode_datatype_term_index S k g)
   end.
 
 Definition mlift {A S} (x : option (S * A)) : option (S * option A) :=
@@ -266,7 +270,7 @@ Definition mstep (o : wop) (m : @M.lenc K) : option (M.lenc * option N) :=
   end.
 
 (* results up to the first exception, and whether one was raised *)
-Fixpoint grun (ops : list wop) (g : LookupEncoder) : list (option Z) * bool :=
+Fixpoint grun (ops : list wop) (g : LookupEncoder S) : list (option Z) * bool :=
   match ops with
   | [] => ([], false)
   | o :: os =>
@@ -296,15 +300,15 @@ Proof.
   intros HR. destruct o as [k|k|k|k]; cbn [gstep mstep].
   - exact (tie_encode_entry_index k g m HR).
   - pose proof (tie_encode_name_term_index k g m HR) as H. unfold lift, mlift.
-    destruct (LookupEncoder_encode_name_term_index eqb k g) as [[v|e] g'];
+    destruct (LookupEncoder_encode_name_term_index S k g) as [[v|e] g'];
       destruct (M.encode_name_term_index eqb k m) as [[m' c]|]; cbn; try exact H.
     destruct H as [-> H]. split; [reflexivity | exact H].
   - pose proof (tie_encode_prefix_term_index k g m HR) as H. unfold lift, mlift.
-    destruct (LookupEncoder_encode_prefix_term_index eqb is_empty k g) as [[v|e] g'];
+    destruct (LookupEncoder_encode_prefix_term_index S k g) as [[v|e] g'];
       destruct (M.encode_prefix_term_index eqb (is_empty k) k m) as [[m' c]|]; cbn; try exact H.
     destruct H as [-> H]. split; [reflexivity | exact H].
   - pose proof (tie_encode_datatype_term_index k g m HR) as H. unfold lift, mlift.
-    destruct (LookupEncoder_encode_datatype_term_index eqb k g) as [[v|e] g'];
+    destruct (LookupEncoder_encode_datatype_term_index S k g) as [[v|e] g'];
       destruct (M.encode_datatype_term_index eqb k m) as [[m' c]|]; cbn; try exact H.
     destruct H as [-> H]. split; [reflexivity | exact H].
 Qed.
@@ -323,7 +327,7 @@ Qed.
 (* from construction on: every history of calls on a fresh LookupEncoder / LookupDecoder of the source
    returns what the model returns, and raises exactly when the model has no result *)
 Theorem source_writer_is_model size ops :
-  exists g0, LookupEncoder___init__ (Z.of_N size) = Val g0 /\
+  exists g0, LookupEncoder___init__ S (Z.of_N size) = Val g0 /\
              grun ops g0 = (map zo (fst (mrun ops (M.lenc_init size))), snd (mrun ops (M.lenc_init size))).
 Proof.
   destruct (tie_init_encoder size) as (g0 & Hi & HR).
